@@ -65,6 +65,12 @@ def gen(rng, tier):
         elif rng.random() < 0.3:
             case.append('dropfirst')                 # the sorter is dropped before the returned stream is read                       # ExternalSorter::sort (T: Ord) instead of sort_by
         yield Case(sx.dump(case), nruns >= 2 and (tie or big), 'c%s' % comp)
+    # every serialized record size across the one- / two- / three-byte boundaries of a variable-length size prefix
+    # (payload sweeps so that the encoded tuple has 120..140, 16376..16395 bytes; a few around 2^21 in the thorough tier)
+    for base_pad in ([110, 16370] if tier == 'quick' else [100, 110, 125, 16365, 16380, 2097140]):
+        items = [[rng.randint(0, 5), 700000 + base_pad + i, base_pad + i] for i in range(30 if base_pad < 100000 else 20)]
+        for comp in ('none', 1):
+            yield Case(sx.dump(['xsort', rng.choice([4, 7, 1000]), rng.choice([1, 2]), comp, 0, ['items'] + items]), True, 'size-prefix-boundaries')
     # one record far above any plausible internal size cap (20 MiB payload)
     for _ in range(1 if tier == 'quick' else 4):
         items = [[rng.randint(0, 5), 800000 + i, 0] for i in range(8)]
@@ -85,6 +91,13 @@ def gen(rng, tier):
         quota = rng.choice([offs[j], offs[j] + rng.randint(1, 7), offs[-2], offs[-2] + 3, size - 1, size // 2, 8192, 8191, size, size + 4096, 10**9])
         cs = rng.choice(['default', 'default', nn, nn // 2 + 1, 40])
         yield Case(sx.dump(['xsortquota', cs, rng.choice(['none', 'none', 1]), max(1, quota), nn]), True, 'quota')
+    # ONE chunk holding more than 2^20 records, compressed and not (no quota hit: 10^12 bytes): anything that cuts a chunk,
+    # a compressed frame or a read-ahead block at a fixed record count shows here.  Judged inside the harness like the
+    # quota cases (the proved model would need minutes for a million-record insertion sort); thorough tier, and the quick
+    # tier whenever an anchored source file differs from the anchors
+    if tier == 'thorough':
+        for comp in ('none', 1):
+            yield Case(sx.dump(['xsortquota', 2000000, comp, 10**12, (1 << 20) + rng.randint(1, 2000)]), True, 'million-records-one-chunk')
     # a few large runs: par_sort_unstable_by really runs in parallel on them (several thousand items per chunk)
     for _ in range(2 if tier == 'quick' else 40):
         L = rng.choice([3000, 6000])
